@@ -16,7 +16,8 @@ import os
 import sys
 from contextlib import contextmanager
 
-REPO_PREFIX = '/repo/penman'
+REPO = os.environ.get('PMON_REPO', '/repo').rstrip('/')
+REPO_PREFIX = REPO + '/penman'
 mon = sys.monitoring
 E = mon.events
 
@@ -77,7 +78,7 @@ def coverage_report(anchors):
     out = {}
     for a in anchors:
         modname, _, qual = a.partition(':')
-        fname = '/repo/' + modname.replace('.', '/') + '.py'
+        fname = REPO + '/' + modname.replace('.', '/') + '.py'
         k = (fname, qual)
         code = _code_objs.get(k)
         if code is None:
